@@ -97,6 +97,10 @@ def analyse(rec, events, runs, label, gens=None):
         if qualname(e["module"]) != e["qualname_at_return"]:
             rec.violation("module-renamed-after-return", f"{e['gen']}({e['kw']}) returned a module exported as '{e['qualname_at_return']}' which is now "
                                                          f"exported as '{qualname(e['module'])}'", case={"kind": "rename", "gen": e["gen"], "kw": e["kw"]})
+        if e["gen"] in ("G13", "Series*") and not qualname(e["module"]).startswith("hdl21.generators."):
+            # a module generated by the built-in Series (defined in hdl21/generators.py), whoever handed it on afterwards
+            rec.violation("module-renamed-after-return", f"{e['gen']}({e['kw']}): a module generated by hdl21.generators.Series is exported as '{qualname(e['module'])}' "
+                                                         f"(qualified by another file than its generator's)", case={"kind": "rename", "gen": e["gen"], "kw": e["kw"]})
         if "0x" in e["module"].name:
             rec.violation("name-contains-address", f"{e['gen']}({e['kw']}): name '{e['module'].name}' contains a memory address", case={"kind": "addr"})
     # one module under two names / two modules under one name, across generators
